@@ -7,6 +7,43 @@ ROOT = os.path.dirname(os.path.dirname(os.path.abspath(__file__)))
 MARK = '---------------------------------------------------------------------------\n\n## 9. As built'
 
 
+BUILT_VS_PLANNED = """
+### 9.3 What of sections 2, 3 and 7 exists, and what does not
+
+Built and run on every check: extraction from `/repo/src/h2/*.py` as text, the
+symbolic interpreter with decision-replay path enumeration, sidecar contracts,
+modular calls against callee contracts, `GI` on normal and exceptional exits,
+the dependency models, z3 with cvc5 on `unknown`, the vacuity check per
+function, one canary per function that must be refuted, known-finding matching,
+state-injection replay under `/venv/bin/python` (real constructors for
+`H2Connection` / `H2Configuration` / state machine / buffers, then exactly the
+modelled fields), bounded stand-ins reported separately, evidence.
+
+Planned in §2.8 / §3.2 / §3.5 and **not built**: the CPython cross-check of the
+engine's transition relation, the in-memory mutant catalogue, run-time contract
+monitoring of the test suite, the history search of §3.2(2) (a violation whose
+state-injection replay does not reproduce is reported with
+`no-failing-input-found`), the both-solvers-on-every-obligation thorough mode,
+the obligation cache.  The **thorough tier differs from quick only in the
+per-obligation solver budget** (60 s instead of 10 s); it explores the same
+paths and bounds.  What stands in for the mutant catalogue is `seeded/`: %d
+stored property-breaking changes (patch + native demo that exits 1 with the
+change and 0 without; the 1403 baseline tests pass with each), re-run with
+`tools/seed_recheck.py`; `seeded/<id>/meta.json` records which check reported
+each one.  Currently reported by their own property's check: %s; not
+reported (no contract reaches the changed function yet): %s.
+"""
+
+
+def seed_status():
+    d = os.path.join(ROOT, 'seeded')
+    hit, miss = [], []
+    for sid in sorted(os.listdir(d)):
+        m = json.load(open(os.path.join(d, sid, 'meta.json')))
+        (hit if m['property'] in m.get('detected_by', []) else miss).append(sid)
+    return len(hit) + len(miss), ', '.join(hit) or 'none', ', '.join(miss) or 'none'
+
+
 def props(f):
     p = f['property']
     return ', '.join(p) if isinstance(p, list) else p
@@ -51,7 +88,7 @@ function is still a VIOLATION.
             f['id'], props(f), f['what'].split(' ', 1)[1],
             '; '.join('`%s`' % w for w in f.get('witness', [])),
             f.get('why_not_fixed', 'the same defect as the entry whose number it shares, seen through another obligation')))
-    out.append('')
+    out.append(BUILT_VS_PLANNED % seed_status())
     p = os.path.join(ROOT, 'DESIGN.md')
     s = open(p).read()
     if MARK in s:
